@@ -162,9 +162,9 @@ ItNext(F, it) ==
     ELSE Ascend(F, it)
 RECURSIVE ItRun(_, _, _)
 ItRun(F, it, fuel) == IF it.cu = 0 \/ fuel = 0 THEN <<>> ELSE <<it>> \o ItRun(F, ItNext(F, it), fuel - 1)
-AllDiesVisited(F) == LET r == ItRun(F, ItBegin(F), 64) IN [i \in 1..Len(r) |-> r[i].die]
+AllDiesVisited(F) == LET r == ItRun(F, ItBegin(F), 64 + 2 * Len(F.die)) IN [i \in 1..Len(r) |-> r[i].die]
 \* the parent the iterator's stack implies (what parent_cache records)
-StackParents(F) == LET r == ItRun(F, ItBegin(F), 64) IN
+StackParents(F) == LET r == ItRun(F, ItBegin(F), 64 + 2 * Len(F.die)) IN
                    [i \in 1..Len(r) |-> <<r[i].die, IF Len(r[i].stk) = 0 THEN 0 ELSE r[i].stk[Len(r[i].stk)]>>]
 
 -----------------------------------------------------------------------------
@@ -189,10 +189,10 @@ Produce(F, stack, chain, alldies, fuel) ==
                            <<d>> \o chain, alldies, fuel - 1)
               ELSE <<CD(d, chain)>> \o Produce(F, [stack EXCEPT ![Len(stack)] = Tail(top)], chain, alldies, fuel - 1)
 
-ProducerKids(F, v) == Produce(F, <<KidsRange(F, v.d)>>, v.ch, FALSE, 200)
+ProducerKids(F, v) == Produce(F, <<KidsRange(F, v.d)>>, v.ch, FALSE, 200 + 4 * Len(F.die))
 ProducerEntries(F) ==
     Concat([j \in 1..Len(CookedUnits(F)) |->
-              Produce(F, <<Pre(F, F.units[CookedUnits(F)[j]].root)>>, <<>>, TRUE, 400)])
+              Produce(F, <<Pre(F, F.units[CookedUnits(F)[j]].root)>>, <<>>, TRUE, 400 + 4 * Len(F.die))])
 
 \* value_die::get_parent / fetch_parent_die
 RECURSIVE FetchParentLoop(_, _)
@@ -247,7 +247,7 @@ NavOK(F) ==
           /\ \A j \in 1..Len(CookedKids(F, E[i])) : FetchParent(F, CookedKids(F, E[i])[j]) = <<E[i]>>
           /\ FetchParent(F, E[i]) = CookedParent(F, E[i])
           \* root = end of the parent chain, and it is a compile unit root without import chain
-          /\ RootVia(F, E[i], 32) = CookedRoot(F, E[i])
+          /\ RootVia(F, E[i], 32 + Len(F.die)) = CookedRoot(F, E[i])
           /\ CookedRoot(F, E[i]).ch = <<>> /\ RawParent(F, CookedRoot(F, E[i]).d) = 0
 
 AttrOK(F) ==
